@@ -1,5 +1,6 @@
 import GmQuic.Lemmas.AntiAmpMore
 import GmQuic.Lemmas.AntiAmpConcSender
+import GmQuic.Lemmas.AntiAmpWake
 /-!
 # C15 — an unvalidated address never receives more than 3x what it sent
 
@@ -231,5 +232,42 @@ example :
       .senderStep 700, .callAbort, .senderStep 0, .stepPool 0, .senderStep 0]
     NoGrantC ops ∧ (ops.foldl Conc.step {}).sentTotal = 700 ∧ (ops.foldl Conc.step {}).aa.credit = 500 := by
   decide
+
+
+theorem winv_fold (ops : List COp) (s : Conc) (hi : WInv s) : WInv (ops.foldl Conc.step s) := by
+  induction ops generalizing s with
+  | nil => exact hi
+  | cons op ops ih => exact ih _ (winv_step s op hi)
+
+/-- **resumes_on_rcvd_or_grant over all interleavings** (no lost wake-up, grants included): whenever
+    the sending task sleeps on `Err(CREDIT)` and no CREDIT signal is pending, either the path is still
+    unvalidated with a credit of exactly zero, or some concurrent `on_rcvd` / `grant` / `abort` has
+    already changed the credit / state and its `wake_by(CREDIT)` is its very next operation.  In
+    particular, once every concurrent invocation has finished, a sleeping un-signalled sender means
+    there is nothing it could send for; and a signalled sleeper re-polls at its next step. -/
+theorem resumes_conc (ops : List COp) :
+    let s := ops.foldl Conc.step {}
+    (s.sender = .asleep → s.aa.sig = false →
+      (s.aa.state = .normal ∧ s.aa.credit = 0) ∨ 0 < wakers s.pool) ∧
+    (s.sender = .asleep → s.aa.sig = false → s.pool = [] → s.aa.state = .normal ∧ s.aa.credit = 0) ∧
+    (s.sender = .asleep → s.aa.sig = true → (s.step (.senderStep 0)).sender = .idle) := by
+  intro s
+  have h : WInv s := winv_fold ops {} ⟨by simp, by simp, by simp⟩
+  refine ⟨h.asleep, ?_, ?_⟩
+  · intro h1 h2 h3
+    rcases h.asleep h1 h2 with h4 | h4
+    · exact h4
+    · rw [h3] at h4; simp [wakers] at h4
+  · intro h1 h2
+    simp [Conc.step, h1, h2]
+
+/-- non-vacuity: the sender reads credit 0, an `on_rcvd(5)` adds credit and wakes before the sender's
+    second state check; the sender still goes to sleep but the signal is pending and it re-polls. -/
+example :
+    let ops : List COp := [.senderStep 0, .senderStep 0, .senderStep 0, .callRcvd 5, .stepPool 0,
+      .stepPool 0, .stepPool 0, .senderStep 0]
+    (ops.foldl Conc.step {}).sender = .asleep ∧ (ops.foldl Conc.step {}).aa.sig = true ∧
+      (ops.foldl Conc.step {}).aa.credit = 15 ∧
+      ((ops ++ [COp.senderStep 0]).foldl Conc.step {}).sender = .idle := by decide
 
 end GmQuic.Props.C15
